@@ -50,3 +50,46 @@ Proof.
   - rewrite HE, ln_exp. field.
   - field. repeat split; try lra; intro H0; apply H1; lra.
 Qed.
+
+Lemma sech_asech : forall x, 0 < x <= 1 -> nbt_sech (nbt_asech x) = x.
+Proof.
+  intros x [H0 H1]. unfold nbt_sech, nbt_asech.
+  assert (Hi : 1 <= 1 / x).
+  { apply (Rmult_le_reg_r x); [assumption|]. replace (1 / x * x) with 1 by (field; lra). lra. }
+  set (s1 := sqrt (1 / x - 1)). set (s2 := sqrt (1 / x + 1)).
+  assert (S1 : s1 * s1 = 1 / x - 1) by (apply sqrt_sqrt; lra).
+  assert (S2 : s2 * s2 = 1 / x + 1) by (apply sqrt_sqrt; lra).
+  assert (P1 : 0 <= s1) by apply sqrt_pos.
+  assert (P2 : 0 <= s2) by apply sqrt_pos.
+  set (w := s1 * s2 + 1 / x).
+  assert (Hw : 0 < w).
+  { unfold w. assert (0 <= s1 * s2) by (apply Rmult_le_pos; assumption). lra. }
+  assert (Hinv : / w = 1 / x - s1 * s2).
+  { apply Rmult_eq_reg_l with w; [|lra]. rewrite Rinv_r by lra. unfold w.
+    replace ((s1 * s2 + 1 / x) * (1 / x - s1 * s2))
+      with (1 / x * (1 / x) - (s1 * s1) * (s2 * s2)) by ring.
+    rewrite S1, S2. field. lra. }
+  unfold cosh. rewrite exp_Ropp, exp_ln by assumption. rewrite Hinv. unfold w. field. lra.
+Qed.
+
+Lemma csch_acsch : forall x, x <> 0 -> nbt_csch (nbt_acsch x) = x.
+Proof.
+  intros x Hx. unfold nbt_csch, nbt_acsch.
+  assert (Hsq : 0 < 1 / x ^ 2).
+  { apply Rdiv_lt_0_compat; [lra|]. simpl. rewrite Rmult_1_r.
+    destruct (Rtotal_order x 0) as [L|[L|L]]; [|contradiction|]; nra. }
+  set (s := sqrt (1 + 1 / x ^ 2)).
+  assert (S : s * s = 1 + 1 / x ^ 2) by (apply sqrt_sqrt; lra).
+  assert (Ps : 0 <= s) by apply sqrt_pos.
+  set (t := 1 / x) in *.
+  assert (T : 1 / x ^ 2 = t * t) by (unfold t; field; assumption).
+  set (w := s + t).
+  assert (Hw : 0 < w).
+  { unfold w. rewrite T in S. destruct (Rlt_le_dec 0 (s + t)) as [L|L]; [assumption|]. exfalso. nra. }
+  assert (Hinv : / w = s - t).
+  { apply Rmult_eq_reg_l with w; [|lra]. rewrite Rinv_r by lra. unfold w.
+    replace ((s + t) * (s - t)) with (s * s - t * t) by ring.
+    rewrite S, T. ring. }
+  unfold sinh. rewrite exp_Ropp, exp_ln by assumption. rewrite Hinv.
+  replace (w - (s - t)) with (2 * t) by (unfold w; ring). unfold t. field. assumption.
+Qed.
